@@ -93,8 +93,19 @@ impl TryFrom<tir::InputQuery> for CanonicalQuery {
             .min_amount
             .as_option()
             .map(|x| data_or_bail!(x, assets))
-            .transpose()?
-            .map(|x| CanonicalAssets::from(Vec::from(x)));
+            .transpose()?;
+
+        // only constant amounts can be turned into canonical assets
+        if let Some(assets) = min_amount {
+            if let Some(bad) = assets.iter().find(|x| x.amount.as_number().is_none()) {
+                return Err(Error::ExpectedData(
+                    "number".to_string(),
+                    bad.amount.clone(),
+                ));
+            }
+        }
+
+        let min_amount = min_amount.map(|x| CanonicalAssets::from(Vec::from(x)));
 
         let refs = query
             .r#ref
